@@ -178,21 +178,41 @@ class Scheduler:
                 m.thread.join(timeout=self.timeout)
 
 
-def explore(make_run, max_preemptions=2, max_runs=None, should_stop=None):
+def explore(make_run, max_preemptions=2, max_runs=None, should_stop=None, strategy='mixed'):
     """Enumerate schedules of a fresh system with at most `max_preemptions` preemptive switches.
 
     make_run() -> (scheduler, finish) where the scheduler has its threads spawned (none started) and
     finish(sched, schedule) is called when all threads are done and returns the run's result.
     Yields (schedule, result) per run. A schedule is the list of thread names chosen at each step.
     """
-    # Breadth-first over choice prefixes (each entry: list of thread names, the forced prefix): first the default
-    # schedule, then every schedule that deviates from it once, then twice ... - under a run cap the schedules that
-    # need the fewest forced switches (which is what most races need) are all visited before any deeper combination
+    # Two work lists over choice prefixes (each entry: list of thread names, the forced prefix), served in turn:
+    #  - breadth-first: the default schedule, then every schedule that deviates from it once, then twice ... - under a
+    #    run cap every schedule that needs ONE forced switch is visited before any deeper combination;
+    #  - depth-first: the earliest alternative of the most recent run - reaches combinations of several forced
+    #    switches (which some races need) long before the breadth-first list gets there.
     import collections
-    stack = collections.deque([[]])
+    stack = collections.deque([[]])     # breadth-first list
+    dfs = []                            # depth-first list
+    visited = set()
     seen = 0
-    while stack:
-        prefix = stack.popleft()
+    turn = 0
+    while stack or dfs:
+        turn += 1
+        if strategy == 'bfs':
+            del dfs[:]
+        elif strategy == 'dfs' and turn > 1:
+            stack.clear()
+            if not dfs:
+                break
+        if (turn % 2 == 1 and stack) or not dfs:
+            prefix = stack.popleft()
+            origin = 'bfs'
+        else:
+            prefix = dfs.pop()
+            origin = 'dfs'
+        if tuple(prefix) in visited:
+            continue
+        visited.add(tuple(prefix))
         sched, finish = make_run()
         schedule = []
         current = None
@@ -230,5 +250,10 @@ def explore(make_run, max_preemptions=2, max_runs=None, should_stop=None):
             return
         if should_stop is not None and should_stop():
             return
-        for (idx, alt) in branch_points:
-            stack.append(schedule[:idx] + [alt])
+        # each list grows from its own runs only (the first run feeds both): two independent explorations
+        if origin == 'bfs' or seen == 1:
+            for (idx, alt) in branch_points:
+                stack.append(schedule[:idx] + [alt])
+        if origin == 'dfs' or seen == 1:
+            for (idx, alt) in reversed(branch_points):
+                dfs.append(schedule[:idx] + [alt])
